@@ -58,10 +58,20 @@ structure NDefects where
   /-- `fetch` follows one pointer level, and only towards a struct, while the checker's `fieldType`
       dereferences every level (`**struct`, `*map` members are accepted but not fetchable) -/
   fetchDerefOnce : Bool
+  /-- `FetchFn` returns a member of type `*func(…)` as the pointer it is (`reflect: call of
+      reflect.Value.Call on ptr Value`), although `isFuncType` dereferences and the checker accepts the call;
+      repaired by 547c103 (`derefFn`) -/
+  ptrFuncNotFetched : Bool
+  /-- `FetchFn` unwraps an interface only at the top: a member of type `*interface{}` holding a function
+      is accepted (`isFuncType` dereferences to the interface) but `derefFn` stops at the interface value
+      (`reflect: call of reflect.Value.Call on interface Value`) — still so in the current code -/
+  ptrIfaceFuncNotFetched : Bool
   deriving DecidableEq, Repr
 
-def NDefects.asWas : NDefects := ⟨true, true, true, true, true, true, true, true⟩
-def NDefects.asIs : NDefects := ⟨false, false, false, false, false, false, false, false⟩
+def NDefects.asWas : NDefects := ⟨true, true, true, true, true, true, true, true, true, true⟩
+/-- the documented behaviour: no deviation -/
+def NDefects.repaired : NDefects := ⟨false, false, false, false, false, false, false, false, false, false⟩
+def NDefects.asIs : NDefects := ⟨false, false, false, false, false, false, false, false, false, true⟩
 
 /-! ## Spec: what Go / `reflect` resolve (the selector rule)
 
@@ -373,9 +383,10 @@ def fetchFnTy (d : NDefects) (t : Ty) (entries : List (String × Option Ty)) (na
       if stringKeyOk d k then
         if v.kind == .iface then
           match entries.find? (fun kv => kv.1 = name) with
-          | some (_, some ft) => some (ft, false)
+          | some (_, some ft) => if d.ptrFuncNotFetched && ft.isPtr && ft.deref.kind == .func then none else some (ft, false)
           | _ => none
         else if d.fetchFnNoUnwrap then none   -- `value.Elem()` on a non-interface value panics
+        else if d.ptrFuncNotFetched && v.isPtr && v.deref.kind == .func then none
         else some (v, false)
       else none
     | .struct _ =>
@@ -383,7 +394,9 @@ def fetchFnTy (d : NDefects) (t : Ty) (entries : List (String × Option Ty)) (na
       | .found f =>
         if !f.exported then none                    -- "Call using value obtained using unexported field"
         else if f.ty.kind == .func then some (f.ty, false)
-        else if f.ty.kind == .iface && !d.fetchFnNoUnwrap then some (f.ty, false)
+        else if !d.ptrFuncNotFetched && f.ty.deref.kind == .func then some (f.ty, false)   -- `derefFn`
+        else if (f.ty.kind == .iface || (!d.ptrIfaceFuncNotFetched && f.ty.deref.kind == .iface)) && !d.fetchFnNoUnwrap then
+          some (f.ty, false)
         else none                                   -- "Call on interface Value"
       | _ => none
     | _ => none
